@@ -174,15 +174,20 @@ CHECKS.update({
         "technique": "Coq proof (byte-level crash images of every script incl. merge passes) + exhaustive crash-image enumeration on recorded real traces",
     },
     "C09": {
-        "text": "Power-loss image enumeration from recorded real traces under sync=always plus partial Coq proof: for every prefix of "
-                "the recorded calls, directory images in which every file is cut independently to a length between its last "
-                "fsync and its current length (creations/removals persistent) are opened by the real code and read against the "
-                "acknowledged state. Proved in Coq: a set/delete under sync=always is write-then-fsync of the same file before "
-                "anything else; the merge loop emits no unlink (all removals follow the final fsyncs); recoverability at operation "
-                "boundaries. Not yet proved: the theorem over all power-cut images inside a merge.",
-        "design_ref": "DESIGN.md section 8, C09", "note": STORE_NOTE + " fsync = everything written so far to that file is durable "
-                "(assumption about the OS); no directory fsync is modelled because the property grants persistent creations/removals.",
-        "technique": "Coq proof (fsync ordering in model traces) + power-cut image enumeration on recorded traces",
+        "text": "Machine-checked proof in the failure model of the property plus power-loss image enumeration on the real store. Proved "
+                "in Coq (Store/Power.v): a file system that tracks each file's durable length; a power image keeps of every file a "
+                "prefix at least that long, creations and removals persistent, at every boundary between calls; under sync=always "
+                "EVERY power image of the trace of EVERY ready script - sets, deletes, reopens, merge passes - reads as a directory "
+                "that opens to the map after the first n operations (sharp form: a failure during operation o keeps every operation "
+                "that returned before it; for a merge pass the map does not change: no only durable copy is ever removed). The merge "
+                "argument: outputs are unsynced copies read through hint files, hints beyond the durable data are cut off by the "
+                "loader, both outputs are fsynced before the first unlink. The tie to the code: for every prefix of the recorded REAL "
+                "calls, images in which every file is cut independently between its last fsync and its current length are opened by "
+                "the real code and read against the acknowledged state; recorded traces are compared with the model's.",
+        "design_ref": "DESIGN.md section 0.3 and 8, C09", "note": STORE_NOTE + " fsync = everything written so far to that file is durable "
+                "(assumption about the OS); no directory fsync is modelled because the property grants persistent creations/removals. "
+                "Traces must be well-formed (lengths below 2^64, timestamps in i64).",
+        "technique": "Coq proof (power images of every script under sync=always, merge passes included) + power-cut image enumeration on recorded real traces",
     },
     "C20": {
         "text": "One-fault sweep on the real store (level fault_enumeration) plus partial Coq proof: each workload is re-run once per "
